@@ -472,9 +472,18 @@ def selfcheck():
     assert r['position_add']['pre_ok'] == 5 and not r['position_add']['failures'], r
     cs = list_contracts(REPO)
     print('contracts loaded:', len(cs))
+    print('library models compared with numpy:', libmodels_selfcheck())
     os.makedirs(os.path.join(VERIF, 'evidence'), exist_ok=True)
     os.makedirs(os.path.join(VERIF, 'replays'), exist_ok=True)
     return 0
+
+
+def libmodels_selfcheck():
+    """Differential check of the arithmetic library models (pyvc/libmodels.py, trusted base T3) against the numpy
+    the repository runs with; a disagreement is an engine defect and aborts the setup command."""
+    r = native(['libmodels'])
+    assert r.get('linspace_comparisons', 0) > 1000, r
+    return r
 
 
 def merge_backends(results, n_dis):
